@@ -16,6 +16,17 @@ StrtoExp(ev) ==
    IF ev.fn \in {"atol", "atoi"}
    THEN LET r == Strto(ev.text, 10, TRUE, 8) IN [val |-> SubSeq(r.val, 1, IF ev.fn = "atoi" THEN 4 ELSE 8), endoff |-> 0]
    ELSE LET r == Strto(ev.text, ev.base, Signed(ev.fn), 8) IN [val |-> r.val, endoff |-> r.end]
+\* a text of k copies of one character (white space, or '0' in base 10) followed by a short tail, k = kh * 65536 + kl up to 2^31 and more:
+\* white space is skipped and a conversion ends k characters later than in the tail alone; a run of zeros is a run of digits - the value is
+\* that of one zero followed by the tail, the end lies k - 1 characters later.  Offsets as halves <<high, low 16 bits>>.
+AddOff(kh, kl, d) == LET lo == kl + d IN <<kh + (lo \div 65536), lo % 65536>>           \* d >= -1
+StrtoBigExp(ev) ==
+   LET noend == ev.fn \in {"atol", "atoi"}
+       w == IF ev.fn = "atoi" THEN 4 ELSE 8
+       base == IF noend THEN 10 ELSE ev.base
+       r == IF ev.ch = 48 THEN Strto(<<48>> \o ev.tail, base, Signed(ev.fn), 8) ELSE Strto(ev.tail, base, Signed(ev.fn), 8)
+       off == IF noend \/ r.end = 0 THEN <<0, 0>> ELSE IF ev.ch = 48 THEN AddOff(ev.kh, ev.kl, r.end - 1) ELSE AddOff(ev.kh, ev.kl, r.end)
+   IN [val |-> SubSeq(r.val, 1, w), eneg |-> 0, eh |-> off[1], el |-> off[2]]
 \* atoi/atol are only defined on the representable range
 Comparable(ev) == ev.fn \notin {"atol", "atoi"} \/ ~AtoOverflows(ev.text)
 
@@ -25,6 +36,8 @@ TNext ==
    /\ LET ev == TraceLog[l] IN
       IF ev.e = "Reset" THEN TRUE
       ELSE IF ev.e = "Fault" THEN Flag(l, <<"fault">>, [kind |-> ev.kind, where |-> ev.where])
+      ELSE IF ev.e = "StrtoBig" THEN
+           (LET exp == StrtoBigExp(ev) mm == Mismatch(ev, exp) IN IF mm # {} THEN Flag(l, SetToSeq(mm), exp) ELSE TRUE)
       ELSE IF ev.e = "Strto" THEN
            (IF Comparable(ev) THEN LET exp == StrtoExp(ev) mm == Mismatch(ev, exp) IN IF mm # {} THEN Flag(l, SetToSeq(mm), exp) ELSE TRUE ELSE TRUE)
       ELSE LET errs == IF ev.e = "Qsort" THEN QsortErrs(ev) ELSE BsearchErrs(ev)
